@@ -18,6 +18,7 @@ EXPLANATION = (
     'files do not depend on another generator\'s diagnostics; (4) compare before write: the file is created only on the differs-or-unreadable '
     'edge, and the path compared, the path created and (with an output directory) dir.join(relative path) are the same value; (5) all children '
     'are spawned before the first is awaited. Decides these clauses, not hangs, signals or file-system outcomes.')
+THOROUGH_RERUN = ['release']     # the same rules over the release build (no debug assertions): verified clean on the pinned tree
 ASSUMPTIONS = ['rustc type checking and MIR construction', 'std::process / std::fs behave as documented', 'generators read their whole stdin before writing (the protocol\'s stated assumption)']
 B = 'slicec_bin::'
 
